@@ -8,12 +8,14 @@
 (***************************************************************************)
 EXTENDS Own, TLAPS
 
-ASSUME Atomic == AtomicInstall = TRUE
+ASSUME Atomic == AtomicInstall = TRUE /\ CheckOnRollout = TRUE
 
 \* with an atomic install nobody is ever between check and set
 TypeInv == /\ pc \in [Cmds -> STRING]
            /\ tbl \in [Names -> Cmds \cup {None}]
            /\ own \in [Names -> SUBSET (UNION {Bind[c] : c \in Cmds})]
+           /\ obj \in [Cmds -> Cmds \cup {None}]
+           /\ \A c \in Cmds : pc[c] \in {"updated", "healthy", "wait"} => obj[c] \in Cmds
 
 Inv == /\ TypeInv
        /\ O_Ownership
@@ -30,12 +32,16 @@ THEOREM StepInv == Inv /\ [Next]_vars => Inv'
   BY <1>1 DEF vars
 <1>2. ASSUME NEW c \in Cmds, Call(c) PROVE Inv'
   BY <1>2 DEF Call
+<1>2a. ASSUME NEW c \in Cmds, RdCall(c) PROVE Inv'
+  BY <1>2a DEF RdCall, None
+<1>2b. ASSUME NEW c \in Cmds, UpdateSlot(c) PROVE Inv'
+  BY <1>2b DEF UpdateSlot
 <1>3. ASSUME NEW c \in Cmds, WaitOk(c) PROVE Inv'
   BY <1>3 DEF WaitOk
 <1>4. ASSUME NEW c \in Cmds, WaitFail(c) PROVE Inv'
   BY <1>4 DEF WaitFail
 <1>5. ASSUME NEW c \in Cmds, Install(c) PROVE Inv'
-  BY <1>5 DEF Install, Conflict, None
+  BY <1>5, Atomic DEF Install, Conflict, Checks, BindOf, None
 <1>6. ASSUME NEW c \in Cmds, Check(c) PROVE Inv'
   BY <1>6, Atomic DEF Check
 <1>7. ASSUME NEW c \in Cmds, Set(c) PROVE Inv'
@@ -51,7 +57,7 @@ THEOREM StepInv == Inv /\ [Next]_vars => Inv'
 <1>12. CASE Finished
   BY <1>12 DEF Finished, vars
 <1> QED
-  BY <1>1, <1>2, <1>3, <1>4, <1>5, <1>6, <1>7, <1>8, <1>9, <1>10, <1>11, <1>12 DEF Next
+  BY <1>1, <1>2, <1>2a, <1>2b, <1>3, <1>4, <1>5, <1>6, <1>7, <1>8, <1>9, <1>10, <1>11, <1>12 DEF Next
 
 THEOREM Safety == Spec => []O_Ownership
 <1>1. Inv => O_Ownership
